@@ -1,6 +1,8 @@
 import Tmv.Drv.Core
 import Tmv.Model.BlockSync
 import Tmv.Model.BlockSyncV2
+import Tmv.Model.BlockSyncV1
+import Tmv.Model.BlockSyncV2Sched
 /-! Line-protocol driver for C13 (block sync): runs `Tmv.BlockSync` on the op lines the Go stream
 executes on the real blockchain/v0 reactor + pool. Signatures arrive as validity bits computed by
 the harness from the real keys (`sigOK _ _ s := s = 1`); block ids as 32-bit prefixes of the real
@@ -242,9 +244,154 @@ def stepV2 (p : V2.Pc) (toks : List String) : V2.Pc × String :=
   | ["v2show"] => (p, s!"q={p.queue.length} draining={p.draining} synced={p.blocksSynced} dead={p.dead}")
   | _ => (p, "bad-op")
 
+/-! ### blockchain/v1 FSM stream -/
+
+def showFState : V1.FState → String
+  | .unknown => "unknown" | .waitForPeer => "waitForPeer" | .waitForBlock => "waitForBlock"
+  | .finished => "finished"
+
+def parseFState (s : String) : Option V1.FState :=
+  if s = "unknown" then some .unknown else if s = "waitForPeer" then some .waitForPeer
+  else if s = "waitForBlock" then some .waitForBlock else if s = "finished" then some .finished else none
+
+def showV1Err : V1.Err → String
+  | .none => "none" | .finished => "finished" | .invalid => "invalid" | .tooShort => "tooshort"
+  | .lowers => "lowers" | .badData => "baddata" | .missing => "missing" | .duplicate => "duplicate"
+  | .timeoutWrong => "timeoutwrong" | .noTaller => "notaller" | .noResponseCurrent => "noresponse"
+  | .verification => "verification"
+
+def sortInts (l : List Int) : List Int := (l.toArray.qsort (· < ·)).toList
+
+def intList (l : List Int) : String := if l.isEmpty then "-" else ",".intercalate (l.map toString)
+
+def showV1 (n : V1.Node) : String :=
+  let p := n.fsm.pool
+  let blocks := (p.blocks.toArray.qsort (fun a b => a.1 < b.1)).toList
+  let peers := (p.peers.toArray.qsort (fun a b => a.id < b.id)).toList
+  let showPeer (q : V1.Peer) : String :=
+    let bs := (q.blocks.toArray.qsort (fun a b => a.1 < b.1)).toList
+    s!"{q.id}:{q.base}:{q.height}:{q.numPending}:" ++
+      (if bs.isEmpty then "." else "/".intercalate (bs.map fun e => s!"{e.1}" ++ (if e.2.isSome then "+" else "-")))
+  s!"st={showFState n.fsm.state} h={p.height} max={p.maxPeerHeight} next={p.nextRequestHeight} " ++
+    s!"planned={intList (sortInts p.planned)} blocks=" ++
+    (if blocks.isEmpty then "-" else ",".intercalate (blocks.map fun e => s!"{e.1}:{e.2}")) ++
+    " peers=" ++ (if peers.isEmpty then "-" else ",".intercalate (peers.map showPeer)) ++
+    s!" errs={natList n.fsm.peerErrors.reverse} sw={n.fsm.switched} dead={n.fsm.dead}"
+
+/-- `h:p,h:p` -/
+def parseTries (s : String) : Option (List (Int × Nat)) :=
+  (splitComma s).mapM fun t =>
+    match t.splitOn ":" with
+    | [h, q] => do pure (← h.toInt?, ← q.toNat?)
+    | _ => none
+
+def stepV1 (n : V1.Node) (toks : List String) : V1.Node × String :=
+  let ev (e : V1.Ev) : V1.Node × String :=
+    if n.fsm.dead then (n, "dead") else
+    let (n', err) := n.event e
+    if n'.fsm.dead then (n', "panic") else (n', s!"{showFState n'.fsm.state} err={showV1Err err}")
+  match toks with
+  | ["v1start"] => ev .start
+  | ["v1stop"] => ev .stop
+  | "v1status" :: rest =>
+    match getNat rest "p", getInt rest "base", getInt rest "height" with
+    | some id, some b, some h => ev (.statusResponse id b h)
+    | _, _, _ => (n, "bad-op")
+  | "v1block" :: rest =>
+    match getNat rest "p", parseBlock rest with
+    | some id, some b =>
+      if b.malformed then (n, "bad-op")
+      else if !b.lastCommit.basicOK then (n, "rejected")
+      else ev (.blockResponse id b)
+    | _, _ => (n, "bad-op")
+  | "v1noblock" :: rest =>
+    match getNat rest "p" with
+    | some id => ev (.noBlockResponse id)
+    | none => (n, "bad-op")
+  | "v1processed" :: rest =>
+    match getNat rest "failed" with
+    | some f => ev (.processedBlock (f ≠ 0))
+    | none => (n, "bad-op")
+  | "v1remove" :: rest =>
+    match getNat rest "p" with
+    | some id => ev (.peerRemove id)
+    | none => (n, "bad-op")
+  | "v1timeout" :: rest =>
+    match (kv rest "name").bind parseFState with
+    | some st => ev (.stateTimeout st)
+    | none => (n, "bad-op")
+  | "v1mkreq" :: rest =>
+    match getNat rest "max", (kv rest "tries").bind parseTries, getNat rest "def" with
+    | some m, some tr, some d =>
+      ev (.makeRequests m fun h => match tr.find? (·.1 = h) with | some e => e.2 | none => d)
+    | _, _, _ => (n, "bad-op")
+  | ["v1process"] =>
+    let (n', r) := n.processOnce sigOK
+    (n', match r with
+      | .missing => "missing" | .verificationFailure => "verification-failure"
+      | .processed => "processed" | .panicApply => "panic-apply" | .dead => "dead")
+  | ["v1show"] => (n, showV1 n)
+  | ["v1store"] => (n, showStoreOf n.st n.store)
+  | _ => (n, "bad-op")
+
+/-! ### blockchain/v2 scheduler stream -/
+
+def showScOut : V2S.Out → String
+  | .noOp => "noop" | .peerError p => s!"peer-error p={p}"
+  | .blockReceived p h => s!"block-received p={p} h={h}" | .finished => "finished"
+  | .blockRequest p h => s!"block-request p={p} h={h}" | .fail => "fail"
+  | .pruned ps => "pruned " ++ " ".intercalate (ps.map toString) | .panicHeight => "panic"
+
+def showSched (s : V2S.Sched) : String :=
+  let peers := (s.peers.toArray.qsort (fun a b => a.id < b.id)).toList
+  let st := (s.blockStates.toArray.qsort (fun a b => a.1 < b.1)).toList
+  let pe := (s.pending.toArray.qsort (fun a b => a.1 < b.1)).toList
+  let re := (s.received.toArray.qsort (fun a b => a.1 < b.1)).toList
+  let ps : V2S.PState → String := fun x => match x with | .new => "New" | .ready => "Ready" | .removed => "Removed"
+  let bs : V2S.BState → String := fun x => match x with | .new => "New" | .pending => "Pending" | .received => "Received"
+  let j (l : List String) : String := if l.isEmpty then "-" else ",".intercalate l
+  s!"h={s.height} peers={j (peers.map fun q => s!"{q.id}:{ps q.state}:{q.base}:{q.height}")} " ++
+    s!"states={j (st.map fun e => s!"{e.1}:{bs e.2}")} pending={j (pe.map fun e => s!"{e.1}:{e.2.1}")} " ++
+    s!"received={j (re.map fun e => s!"{e.1}:{e.2}")}"
+
+def stepSc (s : V2S.Sched × Bool) (toks : List String) : (V2S.Sched × Bool) × String :=
+  let ev (e : V2S.Ev) : (V2S.Sched × Bool) × String :=
+    if s.2 then (s, "dead") else
+    let (s', o) := s.1.handle e
+    ((s', o = .panicHeight), showScOut o)
+  match toks with
+  | "scstatus" :: rest =>
+    match getNat rest "p", getInt rest "base", getInt rest "height" with
+    | some id, some b, some h => ev (.statusResponse id b h)
+    | _, _, _ => (s, "bad-op")
+  | "scblock" :: rest =>
+    match getNat rest "p", getInt rest "h", getInt rest "t" with
+    | some id, some h, some t => ev (.blockResponse id h t)
+    | _, _, _ => (s, "bad-op")
+  | "scnoblock" :: rest =>
+    match getNat rest "p" with | some id => ev (.noBlockResponse id) | none => (s, "bad-op")
+  | "scsched" :: rest =>
+    match getInt rest "t" with | some t => ev (.trySchedule t) | none => (s, "bad-op")
+  | "scadd" :: rest =>
+    match getNat rest "p" with | some id => ev (.addNewPeer id) | none => (s, "bad-op")
+  | "scremove" :: rest =>
+    match getNat rest "p" with | some id => ev (.removePeer id) | none => (s, "bad-op")
+  | "scprune" :: rest =>
+    match getInt rest "t" with | some t => ev (.tryPrune t) | none => (s, "bad-op")
+  | "scprocessed" :: rest =>
+    match getInt rest "h" with | some h => ev (.blockProcessed h) | none => (s, "bad-op")
+  | "scerror" :: rest =>
+    match getNat rest "p1", getNat rest "p2" with
+    | some a, some b => ev (.processError a b)
+    | _, _ => (s, "bad-op")
+  | ["scshow"] => (s, showSched s.1)
+  | _ => (s, "bad-op")
+
 structure S where
+  sc : Option (V2S.Sched × Bool) := none
   v0 : Option Node := none
   v2 : Option V2.Pc := none
+  v1 : Option V1.Node := none
 
 def parseInit (rest : List String) : Option St :=
   match (kv rest "vals").bind parseVals, (kv rest "ih").bind String.toNat? with
@@ -264,8 +411,26 @@ def step (s : S) (toks : List String) : S × String :=
     match parseInit rest with
     | some st => ({ s with v2 := some (V2.Pc.new st) }, s!"ok h={st.lastHeight}")
     | none => (s, "bad-op")
+  | "scinit" :: rest =>
+    match getInt rest "h" with
+    | some h => ({ s with sc := some (V2S.Sched.new h, false) }, "ok")
+    | none => (s, "bad-op")
+  | "v1init" :: rest =>
+    match parseInit rest with
+    | some st =>
+      let n := V1.Node.new st
+      ({ s with v1 := some n }, s!"ok h={n.fsm.pool.height}")
+    | none => (s, "bad-op")
   | t :: _ =>
-    if t.startsWith "v2" then
+    if t.startsWith "sc" then
+      match s.sc with
+      | some x => let (x', o) := stepSc x toks; ({ s with sc := some x' }, o)
+      | none => (s, "bad-op")
+    else if t.startsWith "v1" then
+      match s.v1 with
+      | some n => let (n', o) := stepV1 n toks; ({ s with v1 := some n' }, o)
+      | none => (s, "bad-op")
+    else if t.startsWith "v2" then
       match s.v2 with
       | some p => let (p', o) := stepV2 p toks; ({ s with v2 := some p' }, o)
       | none => (s, "bad-op")
